@@ -114,6 +114,12 @@ def run(tier):
         case, nodes, lib_nodes = tc.make_case(rng, i, d, want=["snap", "prog"])
         if lib_nodes is None:
             case["want"].append("trace")
+        if rng.random() < 0.015:
+            # a statement given twice must be rejected by the compiler; where it is accepted, two tal:define
+            # push the locals twice and pop them once
+            case["main"] += '<p tal:define="x s1" tal:define="y s2">dup</p>'
+            case["duplicate"] = True
+            case["want"] = ["snap"]
         snap_cases.append(case)
         snap_meta.append((nodes, lib_nodes))
     snap_res = tc.run_cases(snap_cases)
@@ -128,6 +134,8 @@ def run(tier):
                 progs.append(p)
                 prog_src.append(case[which])
         if "compile_exc" in r:
+            if case.get("duplicate"):
+                snap_stats["duplicate_statements_rejected"] = snap_stats.get("duplicate_statements_rejected", 0) + 1
             continue
         if r["exc"]:
             snap_stats["raised"] += 1       # an aborted expansion is not an expansion (what raises is C17's business)
@@ -155,6 +163,10 @@ def run(tier):
         found = True
         rep = {"what": "after the expansion the caller's context is not what it was (apart from explicit global defines)",
                "case": tc.replay_doc(case, nodes, lib_nodes), "differences": diff, "explicit_globals": sorted(explicit)}
+        if case.get("duplicate"):
+            rep["what"] += " — the template gives tal:define twice on one element and the compiler accepts it"
+            fnd.add("duplicate-statement", rep, len(case["main"]))
+            continue
         if worst is None or len(case["main"]) < len(worst["case"]["template"]):
             worst = rep
     if worst is not None:
